@@ -4,6 +4,7 @@
 #include <signal.h>
 #include <stdarg.h>
 #include <unistd.h>
+#include <sys/mman.h>
 #include <math.h>
 
 __thread FILE *tr;
@@ -21,7 +22,10 @@ static __thread char last_begin[512];
 /* recording allocator: ids, canaries, always-moving realloc, poison    */
 #define CAN 64
 #define CANBYTE 0xC5
-typedef struct blk { void *p; size_t sz; long id; int priv; struct blk *next; } blk;
+typedef struct blk { void *p; size_t sz; long id; int priv; void *map; size_t maplen; struct blk *next; } blk;
+/* fence mode (env HX_FENCE): every block is its own mapping between two inaccessible pages and alternately starts right after the
+   low page or ends right at the high one, so that a READ or write one limb outside a block faults (the canaries only see writes) */
+static int fence_mode = -1; static long fence_pg; static void *last_map; static size_t last_maplen; static unsigned long fence_flip;
 #define HB 4096
 static blk *htab[HB];
 static long next_id = 0;
@@ -34,16 +38,29 @@ static blk *blk_find(void *p, int remove) {
 }
 static void blk_add(void *p, size_t sz, long id) {
   blk *b = malloc(sizeof *b); unsigned h = hidx(p);
-  b->p = p; b->sz = sz; b->id = id; b->priv = !alloc_log; b->next = htab[h]; htab[h] = b;
+  b->p = p; b->sz = sz; b->id = id; b->priv = !alloc_log; b->map = last_map; b->maplen = last_maplen; last_map = NULL; b->next = htab[h]; htab[h] = b;
 }
 static void *raw_new(size_t n) {
-  unsigned char *r = malloc(n + 2 * CAN);
+  unsigned char *r;
+  if (fence_mode < 0) { fence_mode = getenv("HX_FENCE") ? 1 : 0; fence_pg = sysconf(_SC_PAGESIZE); }
+  if (fence_mode) {
+    size_t n8 = (n + 7) & ~(size_t)7, body = ((n8 + fence_pg - 1) / fence_pg) * fence_pg; unsigned char *m;
+    if (!body) body = fence_pg;
+    m = mmap(NULL, body + 2 * fence_pg, PROT_READ | PROT_WRITE, MAP_PRIVATE | MAP_ANONYMOUS, -1, 0);
+    if (m == MAP_FAILED) { fprintf(stderr, "harness: mmap failed\n"); _exit(3); }
+    mprotect(m, fence_pg, PROT_NONE); mprotect(m + fence_pg + body, fence_pg, PROT_NONE);
+    memset(m + fence_pg, 0xA5, body); last_map = m; last_maplen = body + 2 * fence_pg;
+    return (fence_flip++ & 1) ? m + fence_pg : m + fence_pg + body - n8;
+  }
+  r = malloc(n + 2 * CAN);
   if (!r) { fprintf(stderr, "harness: out of memory\n"); _exit(3); }
   memset(r, CANBYTE, CAN); memset(r + CAN, 0xA5, n); memset(r + CAN + n, CANBYTE, CAN);
   return r + CAN;
 }
+static void raw_del(blk *b) { if (b->map) munmap(b->map, b->maplen); else free((unsigned char *)b->p - CAN); }
 static int canary_ok(void *p, size_t n) {
   unsigned char *r = (unsigned char *)p - CAN; size_t i;
+  if (fence_mode > 0) return 1;
   for (i = 0; i < CAN; i++) if (r[i] != CANBYTE || r[CAN + n + i] != CANBYTE) return 0;
   return 1;
 }
@@ -63,7 +80,7 @@ static void ra_free(void *p, size_t n) {
   if (!canary_ok(p, b->sz)) guard("canary damaged (seen at free)", b->id);
   if (alloc_log) { fprintf(tr, "{\"e\":\"fr\",\"id\":%ld,\"sz\":%zu}\n", b->id, n); n_events++; }
   memset(p, 0xDD, b->sz);
-  free((unsigned char *)p - CAN); free(b); live_blocks--;
+  raw_del(b); free(b); live_blocks--;
 }
 static void *ra_realloc(void *p, size_t old, size_t new) {
   blk *b = blk_find(p, 1); void *q; long nid;
@@ -73,7 +90,7 @@ static void *ra_realloc(void *p, size_t old, size_t new) {
   memcpy(q, p, b->sz < new ? b->sz : new);
   if (alloc_log) { fprintf(tr, "{\"e\":\"re\",\"id\":%ld,\"old\":%zu,\"nid\":%ld,\"new\":%zu}\n", b->id, old, nid, new); n_events++; }
   memset(p, 0xDD, b->sz);
-  free((unsigned char *)p - CAN); free(b);
+  { void *km = last_map; size_t kl = last_maplen; raw_del(b); free(b); last_map = km; last_maplen = kl; }
   blk_add(q, new, nid);
   return q;
 }
